@@ -287,6 +287,7 @@ class QGen:
     def __init__(self, rng, classes=None, p_alias=0.3, p_subq=0.3, max_depth=2, hostile=0.2, inner_same_cls=0.6, p_corr=0.0):
         self.r = rng
         self.p_corr = p_corr   # share of item-position sub-queries whose WHERE refers to a table of the enclosing statement
+        self.p_csub = 0.0      # opt-in: share of statements with a sub-query inside HAVING / GROUP BY / ORDER BY / a SET value
         self.classes = classes or CLS_NAMES
         self.p_alias = p_alias
         self.p_subq = p_subq
@@ -422,7 +423,13 @@ class QGen:
             for sub in self._item_subs(it):
                 if sub.get("k") != "sel" or not sub.get("from") or self.r.random() > self.p_corr:
                     continue
-                t = self.r.choice(outer)
+                # (explicit table references are resolved by name: leave out outer tables whose name a source of the
+                #  sub-query carries too, the two encodings of such a reference would not denote the same object)
+                inner_names = {x[1][0] for x in sub.get("from", []) + [j[1] for j in sub.get("joins", [])] if x[0] == "t"}
+                cands = [x for x in outer if x[0] not in inner_names]
+                if not cands:
+                    continue
+                t = self.r.choice(cands)
                 oref = ["field", self.r.choice(COLS), [t[0], list(t[1]), t[2]], None]
                 iref = ["field", self.r.choice(COLS), ["#0", [], None], None]
                 crit = ["basic", self.r.choice(["eq", "gt", "lte"]), iref, oref, None]
@@ -485,6 +492,15 @@ class QGen:
             q["with"] = [["cte", w]]
             if self.r.random() < 0.6:
                 q["from"] = q["from"] + [["a", "cte"]]
+        if self.p_csub and depth < self.max_depth and self.r.random() < self.p_csub:
+            sub = self.select(self.cls(cls), depth + 1, small=True, nsel=1)
+            where = self.r.choice(["having", "groupby", "orderby"])
+            if where == "having":
+                q["having"] = ["cmp", self.r.choice(["eq", "gt", "lte"]), self.field(n), sub]
+            elif where == "groupby":
+                q["groupby"] = q.get("groupby", []) + [["sub", sub]]
+            else:
+                q["orderby"] = q.get("orderby", []) + [[["sub", sub], self.r.choice([None, "asc", "desc"])]]
         self.correlate_where(q)
         return q
 
@@ -524,6 +540,8 @@ class QGen:
             q["where"] = ["t", self.crit(0, 2)]
         if self.r.random() < 0.15:
             q["limit"] = self.r.choice([0, 5])
+        if self.p_csub and self.r.random() < self.p_csub:
+            q["sets"] = q["sets"] + [["zz", ["sub", self.select(self.cls(cls), 1, small=True, nsel=1)]]]
         return q
 
     def delete(self, cls):
